@@ -85,16 +85,6 @@ def build(ctx, tier):
     return exe, len(names)
 
 
-KNOWN_ID = 'C18-output-type-change-reuses-reshape-promise'
-
-
-def known_args():
-    """the attribution rule of the harness is switched on only when the lead has listed the finding (or for the harness author's own mutant runs)"""
-    if any(f.get('id') == KNOWN_ID for f in vlib.known_findings()) or os.environ.get('VERIF_C18_ASSUME_KNOWN'):
-        return ['--known']
-    return []
-
-
 def wrapped(exe, n):
     if n == 1:
         return exe
@@ -121,7 +111,7 @@ def check(ctx):
     exe, nstruct = build(ctx, ctx.tier)
     ctx.notes.append('%d generated JDF structures' % nstruct)
     quick = ctx.tier == 'quick'
-    out = ['--outdir', '/verif/out'] + known_args()
+    out = ['--outdir', '/verif/out']
     jobs = []
     if quick:
         dl = ['--deadline', '55']
@@ -148,4 +138,4 @@ def replay(ctx, path, obj):
     kinds = re.search(r' s=(\w+)', h).group(1)
     tier = 'quick' if kinds in gen.structures('quick') else 'thorough'
     exe, _ = build(ctx, tier)
-    return subprocess.call((['mpiexec', '-n', str(np_), '--oversubscribe'] if np_ > 1 else []) + [exe, '--replay', path] + known_args(), env=ENV)
+    return subprocess.call((['mpiexec', '-n', str(np_), '--oversubscribe'] if np_ > 1 else []) + [exe, '--replay', path], env=ENV)
